@@ -10,7 +10,9 @@ TECHNIQUE = ("property-based testing (Hypothesis, spec-first generated modules a
 RULE = ("a case is a generated listing (1-3 sections of one or several contiguous byte intervals, code and data blocks, labels, functions, "
         "symbolic operands; five ISA/format pairs) plus 1-5 (thorough 1-9) non-overlapping "
         "insert_at/replace_at/delete_at/register_insert (AllBlocksScope, SingleBlockScope) requests on instruction boundaries in "
-        "arbitrary registration order, patches of instructions and data directives; "
+        "arbitrary registration order (one edit element in eight is a chain of whole-block deletions of 2-4 consecutive blocks, "
+        "each with its own retarget_to_proxy flag), patches of instructions and data directives; the input CFG's edges are "
+        "added in derivation order or in a generated permutation; "
         "section bytes after RewritingContext.apply() must equal the bytes of the list-edited listing. "
         "Non-trivial = >=2 effective edits of which two touch the same or physically adjacent blocks, or a "
         "whole-block deletion next to another edit; distinct by spec hash.")
